@@ -357,6 +357,30 @@ func cloneBox(b *Box, label string) *Box {
 	return &Box{GoCache: filepath.Join(d, "gocache"), GarbleCache: filepath.Join(d, "garblecache"), Tmp: filepath.Join(d, "tmp"), ModCache: emptyModCache()}
 }
 
+// linkCloneBox returns a private view of a pool made of hard links: builds in it see the warm std
+// closure but none of the user packages other builds of the run compiled, so every user package is
+// really obfuscated again (complete name maps). Go's cache never rewrites a data file with other
+// content (files are named by content hash), so sharing inodes with the pool is safe.
+func linkCloneBox(p *Pool, label string) *Box {
+	d := scratch(label)
+	for _, pair := range [][2]string{{p.GoCache, "gocache"}, {p.GCache, "garblecache"}} {
+		for attempt := 0; ; attempt++ {
+			dst := filepath.Join(d, pair[1])
+			r := Run(Cmd{Argv: []string{"cp", "-al", pair[0], dst}, Timeout: 10 * time.Minute})
+			if r.OK() {
+				break
+			}
+			// a file of the shared pool vanished while copying (another run renamed a temp file): retry
+			os.RemoveAll(dst)
+			if attempt == 3 {
+				panic("cp -al " + pair[0] + ": " + r.String())
+			}
+		}
+	}
+	must(os.MkdirAll(filepath.Join(d, "tmp"), 0o755))
+	return &Box{GoCache: filepath.Join(d, "gocache"), GarbleCache: filepath.Join(d, "garblecache"), Tmp: filepath.Join(d, "tmp"), ModCache: emptyModCache()}
+}
+
 func baseHasLinker() bool {
 	return exists(filepath.Join(baseDir(), "garblecache", "tool", "link.version"))
 }
